@@ -181,6 +181,13 @@ pub fn run(classes_path: &str, seed: u64, per_class: usize, uniform: usize, muta
         if g.rng.gen_bool(0.2) {
             pre.pre.regs[6] = u64::MAX - g.rng.gen_range(0..16); // RSP at the very top of the address space
         }
+        // the instruction pointer is part of the state too: the last bytes of the address space, page 0, the last bytes of the
+        // code area (a fetch gets fewer than 15 bytes), non-executable and unmapped memory
+        if g.rng.gen_bool(0.06) {
+            let c = [u64::MAX, u64::MAX - 1, u64::MAX - 5, u64::MAX - 13, u64::MAX - 14, u64::MAX - 15, u64::MAX - 16, 0, 1, insn::CODE + 0xfff, insn::CODE + 0x1000 - 3,
+                     insn::CODE + 0x1000, RW1, insn::RO + 8, 0x7fff_ffff_ffff_fff8, 0x8000_0000_0000_0000, RW1 + 0x1000 - 2];
+            pre.rip_override = Some(c[g.rng.gen_range(0..c.len())]);
+        }
         if id < skip {
             continue;
         }
